@@ -48,7 +48,7 @@ def static_array_len(f, operand):
                         if fl["name"] == pr["name"]:
                             n = ty_len(fl["ty"])
                             if n is not None: return n
-        ds = f.defs().get(l, [])
+        ds = f.defs1(l)
         if len(ds) != 1 or l in seen: return None
         seen.add(l)
         s = ds[0][2]
@@ -69,7 +69,7 @@ def _slice_iter_len(f, it_local, depth=0):
     """static length of the slice a `slice::Iter` local iterates, when the slice is an unsize cast of a fixed array"""
     l = it_local
     for _ in range(10):
-        ds = f.defs().get(l, [])
+        ds = f.defs1(l)
         if len(ds) != 1: return None
         s_ = ds[0][2]
         if s_["k"] == "call":
